@@ -28,6 +28,28 @@ def eval_poly(sy, p, env, depth=0):
                     return None
                 q, r = divmod(int(pv), k) if pv >= 0 else (-((-int(pv)) // k), -((-int(pv)) % k))
                 v = r if kind == "rem" else q
+            elif s in sy.opsyms:
+                op, pa, pb, w = sy.opsyms[s]
+                a, b = eval_poly(sy, pa, env, depth + 1), eval_poly(sy, pb, env, depth + 1)
+                if a is None or b is None or a != int(a) or b != int(b):
+                    return None
+                a, b = int(a), int(b)
+                if op in ("BitAnd", "BitOr", "BitXor", "Shl", "Shr"):
+                    if a < 0 or b < 0:
+                        return None
+                    v = {"BitAnd": a & b, "BitOr": a | b, "BitXor": a ^ b, "Shr": a >> b, "Shl": a << b}[op]
+                    if op == "Shl":
+                        if w is None:
+                            return None
+                        v &= (1 << w) - 1
+                elif op == "SatSub":
+                    v = max(0, a - b)
+                elif op == "WrapSub":
+                    if w is None:
+                        return None
+                    v = (a - b) % (1 << w)
+                else:
+                    return None
             elif s in sy.b2i:
                 op, pa, pb = sy.b2i[s]
                 a, b = eval_poly(sy, pa, env, depth + 1), eval_poly(sy, pb, env, depth + 1)
